@@ -64,7 +64,9 @@ def suite_forms(seed, tier):
             for form in ["unpacked-ndarray", "unpacked-list", "unpacked-path", "packed-ndarray",
                          "packed-list", "packed-path"]:
                 dts = [np.uint8] if form.startswith("packed") else \
-                    rng.sample([np.uint8, np.int8, np.uint16, np.int32, np.int64, np.uint64], 2)
+                    rng.sample([np.uint8, np.int8, np.uint16, np.int32, np.int64, np.uint64,
+                                # byte order and bool are part of "any integer dtype" too
+                                np.dtype(">u2"), np.dtype(">i4"), np.dtype(">i8"), np.dtype("<u4"), np.bool_], 3)
                 for dt in dts:
                     k = rng.randint(0, 3)
                     cuts = sorted(rng.sample(range(1, len(rows)), min(k, len(rows) - 1))) if len(rows) > 1 else []
